@@ -307,7 +307,7 @@ func c20Scenario(r *vf.Run, t *testing.T, id string, rng *rand.Rand, g genOpts) 
 	res := rt.RunBubble(t, id, 30*time.Second, func() {
 		e := rt.NewServerEnv(id, rt.ServerOpts{})
 		for _, q := range reqs {
-			e.H.Plans[q.Tag] = q.Resp
+			e.H.SetPlan(q.Tag, q.Resp)
 		}
 		for i, q := range reqs {
 			var out []byte
